@@ -434,13 +434,21 @@ static void print_tokens(Token *tok) {
   FILE *out = open_file(opt_o ? opt_o : "-");
 
   int line = 1;
+  Token *prev = NULL;
   for (; tok->kind != TK_EOF; tok = tok->next) {
+    // Two tokens may be printed without a space only if they were
+    // adjacent in the same source text; anything else (e.g. the `-`
+    // of `-N` next to a `-1` from the expansion of N) could fuse into
+    // a different token when the output is read again.
+    bool adjacent = prev && prev->file == tok->file && prev->loc + prev->len == tok->loc;
+
     if (line > 1 && tok->at_bol)
       fprintf(out, "\n");
-    if (tok->has_space && !tok->at_bol)
+    else if (tok->has_space || (prev && !adjacent))
       fprintf(out, " ");
     fprintf(out, "%.*s", tok->len, tok->loc);
     line++;
+    prev = tok;
   }
   fprintf(out, "\n");
 }
